@@ -119,6 +119,7 @@ def _fmt_conc(c):
 
 def replay_witness(fam, pkg, witness, prop_id):
     ctx = Ctx("replay", pkg, witness=witness, prop=prop_id)
+    ctx.purpose = "counterexample"
     fam.fn(ctx, **fam.params)
     return ctx
 
